@@ -32,9 +32,15 @@ ASSUMPTIONS = [
 ]
 
 
-def _canon_result(res):
+def _canon_result(res, op=None):
   from harness import svc
   if res[0] == 'err':
+    if op is not None and op[0] == 'bad_name' and not res[1].startswith(
+        'CRASH:'):
+      # a malformed resource name is rejected by all backends; which class
+      # (ValueError from the name parser / NOT_FOUND from a lookup by name) is
+      # not part of the documented behaviour and is not compared
+      return ('err', 'REJECTED')
     return ('err', res[1])
   v = res[1]
 
@@ -56,7 +62,8 @@ def strategy_service():
       'recycle': st.sampled_from([0, 86400]),
       'context': st.sampled_from(['none', 'none', 'grpc']),
       'es': st.lists(st.booleans(), min_size=4, max_size=4),
-      'ops': histories.history_strategy(min_ops=8, max_ops=40),
+      'ops': histories.history_strategy(min_ops=8, max_ops=40,
+                                        bad_names=True),
   })
 
 
@@ -90,7 +97,7 @@ def check_service(case):
     ops_per_worker = {}
     for step, op in enumerate(case['ops']):
       kind = op[0]
-      results = [(_canon_result(histories.exec_real(s, op)), b)
+      results = [(_canon_result(histories.exec_real(s, op), op), b)
                  for b, s, _ in servers]
       base, b0 = results[0]
       for r, b in results[1:]:
@@ -150,6 +157,8 @@ def check_service(case):
       out.cls('several_ops_one_worker')
     if any(o[0] == 'early_stop' for o in case['ops']):
       out.cls('has_early_stop')
+    if any(o[0] == 'bad_name' for o in case['ops']):
+      out.cls('malformed_name')
     out.cls('recycle_%s' % case['recycle'])
     if case.get('context') == 'grpc':
       out.cls('with_grpc_context')
@@ -161,7 +170,7 @@ def check_service(case):
 
 
 # ------------------------------------------------------------ raw datastore
-def strategy_datastore():
+def strategy_datastore_op():
   from hypothesis import strategies as st
   owner = st.sampled_from(['o0'] * 6 + ['o1'])
   sid = st.sampled_from(['s0'] * 6 + ['s1'])
@@ -201,9 +210,62 @@ def strategy_datastore():
       st.tuples(st.just('update_md'), owner, sid, st.lists(kv, max_size=2),
                 st.lists(tkv, max_size=2)),
   ).map(list)
+  return ops
+
+
+def strategy_datastore():
+  from hypothesis import strategies as st
+  ops = strategy_datastore_op()
   return st.fixed_dictionaries({
       'ops': st.lists(ops, min_size=6, max_size=40).map(
           lambda l: [['create_study', 'o0', 's0']] + l)})
+
+
+def dense_sop(op, res_set):
+  """The service numbers a client's operations densely (max + 1); the backends
+  may count differently for sparse numbers, which no service call sequence can
+  produce."""
+  if op[0] != 'create_sop':
+    return op
+  n = len([r for r in res_set
+           if r[0] == 'sop' and r[1:4] == (op[1], op[2], op[3])])
+  return op[:4] + [n + 1]
+
+
+def precondition_ok(op, existing, res_set):
+  """Implicit preconditions of every caller in the service."""
+  kind = op[0]
+  o, s = op[1], (op[2] if len(op) > 2 else None)
+  if kind in ('update_study', 'create_trial', 'create_sop', 'create_eop'):
+    if (o, s) not in existing:
+      return False
+  if kind == 'update_trial' and ('trial', o, s, op[3]) not in res_set:
+    return False
+  if kind == 'update_sop' and ('sop', o, s, op[3], op[4]) not in res_set:
+    return False
+  if kind == 'update_eop' and ('eop', o, s, op[3]) not in res_set:
+    return False
+  return True
+
+
+def track(op, r0, existing, res_set):
+  """Book-keeping of which studies / resources exist after op returned r0."""
+  if r0 == 'SKIP' or r0[0] == 'err':
+    return
+  if op[0] == 'create_study':
+    existing.add((op[1], op[2]))
+  if op[0] == 'delete_study':
+    existing.discard((op[1], op[2]))
+    for r in [r for r in res_set if r[1:3] == (op[1], op[2])]:
+      res_set.discard(r)
+  if op[0] == 'create_trial':
+    res_set.add(('trial', op[1], op[2], op[3]))
+  if op[0] == 'delete_trial':
+    res_set.discard(('trial', op[1], op[2], op[3]))
+  if op[0] == 'create_sop':
+    res_set.add(('sop', op[1], op[2], op[3], op[4]))
+  if op[0] == 'create_eop':
+    res_set.add(('eop', op[1], op[2], op[3]))
 
 
 def _ds_call(ds, op, existing_studies, existing_res=frozenset()):
